@@ -38,6 +38,16 @@ ClosestFrom(pos, q, S, per, i, best, acc) ==
 Closest(pos, q, S, per) == ClosestFrom(pos, q, S, per, 1, -1, {})
 ClosestDef(pos, q, S, per) == {i \in Idx(pos) : \A j \in Idx(pos) : Dist2(pos[i], q, S, per) <= Dist2(pos[j], q, S, per)}
 
+\* ---- the expanding-shell neighbour iterator (PointLocations::ngbiterator) ----
+\* rank[j] = when point j was returned (1 = first; -1 = never); stages = <<count_1, R_1, count_2, R_2, ..>>: after stage k
+\* count_k points had been returned and the iterator claimed to be complete within squared radius R_k (lattice units)
+D2Lat(p, q) == Sq(p[1] - q[1]) + Sq(p[2] - q[2]) + Sq(p[3] - q[3])
+IterExhaustive(pos, rank, dup, count) ==
+    /\ dup = 0 /\ count = Len(pos) /\ \A j \in Idx(pos) : rank[j] >= 1 /\ rank[j] <= Len(pos)
+IterComplete(pos, i, rank, stages) ==
+    \A k \in 1 .. (Len(stages) \div 2) :
+        \A j \in Idx(pos) : D2Lat(pos[j], pos[i]) < stages[2 * k] => (rank[j] >= 1 /\ rank[j] <= stages[2 * k - 1])
+
 \* sanity of the definitions (checked by TLC on every evaluated case)
 Sane(pos, h2, q, r2, S, per) ==
     /\ Closest(pos, q, S, per) # {}
